@@ -95,9 +95,14 @@ impl Ctx {
     /// known-findings match (empty = unclassified); `case` is the readable failing input.
     pub fn oracle_fail(&mut self, sig: &str, what: &str, case: Value) {
         if self.verbose { eprintln!("ORACLE-FAIL sig={} {}", sig, what); }
-        if self.oracle_failures.len() < 200 {
+        // at most 20 recorded failures per signature, so that a high-volume known finding can never
+        // crowd out a failure with a new signature
+        let k = format!("oracle_failures.sig.{}", sig);
+        let seen = *self.counters.get(&k).unwrap_or(&0);
+        if seen < 20 {
             self.oracle_failures.push(json!({"case_id": self.cur, "sig": sig, "what": what, "case": case}));
         }
+        self.count(&k);
         self.count("oracle_failures");
     }
     /// a canonical witness of a known finding was re-run: `reproduced` says whether it still fails
